@@ -96,6 +96,7 @@ pub fn init_variables() -> HashMap<String, SValue> {
     var.insert(String::from("TangoAccordion"), SValue::from_i(24)); // @ 音色:TangoAccordion
     var.insert(String::from("NylonGuitar"), SValue::from_i(25)); // @ 音色:NylonGuitar
     var.insert(String::from("SteelcGuitar"), SValue::from_i(26)); // @ 音色:SteelcGuitar
+    var.insert(String::from("SteelGuitar"), SValue::from_i(26)); // @ 音色:SteelGuitar
     var.insert(String::from("JazzGuitar"), SValue::from_i(27)); // @ 音色:JazzGuitar
     var.insert(String::from("CleanGuitar"), SValue::from_i(28)); // @ 音色:CleanGuitar
     var.insert(String::from("MutedGuitar"), SValue::from_i(29)); // @ 音色:MutedGuitar
